@@ -34,7 +34,10 @@ OpSet ==
     Mk("move", <<B>>, <<A>>, JNull, {"op", "path"}),
     Mk("copy", <<B>>, <<A>>, JNull, {"op", "path"}),
     Mk("add", <<A>>, <<>>, JInt(1), {"op", "value"}),
-    Mk("add", <<A>>, <<>>, JInt(1), {"path", "value"}) }
+    Mk("add", <<A>>, <<>>, JInt(1), {"path", "value"}),
+    \* an element of the patch array that is not an object at all (its wire form is the value itself): malformed like any other
+    Mk("nonobj", <<A>>, <<>>, JInt(5), {"op", "path", "value"}), Mk("nonobj", <<A>>, <<>>, JNull, {"op", "path", "value"}),
+    Mk("nonobj", <<A>>, <<>>, JStr(<<97>>), {"op", "path", "value"}), Mk("nonobj", <<A>>, <<>>, JArr(<<>>), {"op", "path", "value"}) }
 
 Init == d0 \in Docs /\ ops = <<>>
 \* a patch is extended only while it still succeeds (a failed patch fails with every extension the same way)
@@ -48,7 +51,8 @@ S(str) == CASE str = "add" -> <<97,100,100>> [] str = "remove" -> <<114,101,109,
             [] str = "bogus" -> <<98,111,103,117,115>> [] str = "op" -> <<111,112>> [] str = "path" -> <<112,97,116,104>>
             [] str = "from" -> <<102,114,111,109>> [] str = "value" -> <<118,97,108,117,101>>
 PtrStr(p) == IF p = BadPtr THEN <<97>> ELSE PtrToString(p)      \* "a": no leading slash = invalid pointer
-OpWire(o) == <<"obj", SelectSeq(<< <<S("op"), <<"str", S(o.op)>>>>, <<S("path"), <<"str", PtrStr(o.path)>>>>,
+OpWire(o) == IF o.op = "nonobj" THEN Wire(o.value) ELSE
+             <<"obj", SelectSeq(<< <<S("op"), <<"str", S(o.op)>>>>, <<S("path"), <<"str", PtrStr(o.path)>>>>,
                                    <<S("from"), <<"str", PtrStr(o.from)>>>>, <<S("value"), Wire(o.value)>> >>,
                                 LAMBDA kv : \E n \in o.has : S(n) = kv[1])>>
 PatchWire == <<"arr", [i \in 1..Len(ops) |-> OpWire(ops[i])]>>
